@@ -1,7 +1,7 @@
 """C09 - tensor construction and read-back are lossless for every format (DESIGN.md section 3, C09)."""
 import sys
 from ..common import run_check
-from ..srules import axis, tensorapi
+from ..srules import axis, structsem, tensorapi
 from ..srules.core import SourceIndex
 
 
@@ -21,9 +21,8 @@ def main(ctx):
     ix = SourceIndex(ctx.src)
     ctx.rule("C09.axis-typing", "level order vs dimension order: every subscript/sink is indexed in the right space", min_instances=60)
     axis.run_axis(ctx, ix, "C09.axis-typing", exceptions=tensorapi.axis_exceptions())
-    tensorapi.rule_canonical_structure(ctx, ix)
-    tensorapi.rule_mapping_consumption(ctx, ix)
-    tensorapi.rule_structure_walkers(ctx, ix)
+    structsem.rule_construction_semantics(ctx, ix)
+    structsem.rule_structure_semantics(ctx, ix)
     tensorapi.rule_validation_dominates(ctx, ix)
 
 
